@@ -54,9 +54,9 @@ prop('C08', 'c08', '5 (C08)', gens=('GenArith.v', 'GenLoops.v', 'GenAccumulator.
 prop('C09', 'c09', '5 (C09)', gens=('GenArith.v', 'GenLoops.v', 'GenAccumulator.v'))
 prop('C10', 'c10', '5 (C10)', gens=('GenArith.v', 'GenLoops.v', 'GenModifiers.v', 'GenSerEntry.v'))
 prop('C11', 'c11', '6 (C11)', gens=('GenArith.v', 'GenLoops.v', 'GenStorages.v', 'GenIoReaders.v'))
-prop('C12', 'c12', '6 (C12)', gens=('GenArith.v', 'GenMaxSize.v'))
+prop('C12', 'c12', '6 (C12)', gens=('GenArith.v', 'GenMaxSize.v', 'GenDeriveMaxSize.v'))
 prop('C13', 'c13', '6 (C13)', gens=('GenArith.v', 'GenFixint.v'))
-prop('C14', 'c14', '7 (C14)', gens=('GenSchemaDecl.v', 'GenSchemaImpls.v'))
+prop('C14', 'c14', '7 (C14)', gens=('GenSchemaDecl.v', 'GenSchemaImpls.v', 'GenDeriveSchema.v'))
 prop('C15', 'c15', '7 (C15)', gens=('GenSchemaDecl.v',))
 prop('C16', 'c16', '7 (C16)', gens=('GenSchemaDecl.v', 'GenHashTags.v', 'GenArith.v'))
 prop('C17', 'c17', '8 (C17)', gens=('GenArith.v', 'GenLoops.v', 'GenPanicArms.v', 'GenDynArms.v', 'GenDynComposite.v', 'GenDynHelpers.v'))
